@@ -9,7 +9,7 @@ META = dict(
          "every send to a failing destination), followed by failure-free passes: in each pass the datagrams handed to the double must be, per destination, exactly the "
          "pending packets in queue order if the destination is not failing and nothing otherwise; hence every packet is sent exactly once, in order, and no destination "
          "blocks another. A second family fails individual send calls (every mask over the sends of two passes) and checks exactly-once, per-destination order and "
-         "that destinations without a failed send are not held back. A third family drives serviceTxPktsOnce with every fail/succeed pattern per call and requires exactly-once delivery in per-destination queue order.",
+         "that destinations without a failed send are not held back. A third family drives serviceTxPktsOnce with every fail/succeed pattern per call and with every subset of destinations failing per call, and requires exactly-once delivery in per-destination queue order.",
     note="The UDP socket is a double at the handler interface (send(data, ha)); transient errnos are the nine the stack itself treats as transient, all exercised. "
          "Non-transient errors (re-raised by the stack) and the receive side are outside the statement.",
 )
@@ -235,8 +235,11 @@ def run_once(kind, queue, bits):
     calls = 0
     limit = len(bits) + 3 * len(items) + 3
     while st.txPkts and calls <= limit:
-        fail = calls < len(bits) and bits[calls]
-        h.failing = {d: errname(calls, d) for d in DESTS} if fail else {}
+        fail = bits[calls] if calls < len(bits) else 0
+        if isinstance(fail, tuple):          # subset family: exactly these destinations fail during this call
+            h.failing = {d: errname(calls, d) for d in fail}
+        else:
+            h.failing = {d: errname(calls, d) for d in DESTS} if fail else {}
         h.sent = []
         try:
             st.serviceTxPktsOnce()
@@ -333,6 +336,26 @@ def work(arg):
                     p.violation("serviceTxPktsOnce|" + v, ex, what,
                                 dict(stack=kind, queue=labels(queue), call_fails=list(bits), delivered=sent, divergence=what,
                                      how="queue everything, then call stack.serviceTxPktsOnce() repeatedly; call i makes double.send raise a transient errno iff call_fails[i]"))
+        # serviceTxPktsOnce with a chosen subset of destinations failing in each of the first calls
+        ksub = (3 if n <= 4 else 2) if QUICK else (4 if n <= 4 else 3)
+        subsets = [c for r in range(len(used) + 1) for c in itertools.combinations(used, r)]
+        for k in range(1, ksub + 1):
+            for pat in itertools.product(subsets, repeat=k):
+                if not pat[-1]:
+                    continue          # trailing failure-free calls are the default
+                if all(len(sub) in (0, len(DESTS)) for sub in pat):
+                    continue          # all-or-nothing patterns are the family above
+                p.evaluations += 1
+                p.nontrivial(("once-sub", queue, pat))
+                v, what, sent = run_once(kind, queue, pat)
+                if v is None:
+                    p.outcome("once-subset-ok")
+                else:
+                    p.outcome("once-subset-violation:" + v)
+                    ex = "%s queue=%s failing-per-call=%s" % (kind, qstr(queue), [list(x) for x in pat])
+                    p.violation("serviceTxPktsOnce|" + v, ex, what,
+                                dict(stack=kind, queue=labels(queue), failing_destinations_per_call=[list(x) for x in pat], delivered=sent, divergence=what,
+                                     how="queue everything, then call stack.serviceTxPktsOnce() repeatedly; during call i double.send raises a transient errno for the listed destinations"))
     return p
 
 
@@ -391,7 +414,7 @@ def run():
     ]
     return ck.finish(
         rule="all destination assignments of 1..%d packets over {A,B,C} (beyond length %d: one per renaming of destinations) x every split 'first k packets queued up front, rest after pass 1' x every choice of failing "
-             "subset of the used destinations for each of the first %d passes (UdpStack; GramStack up to 4 packets); plus (queues up to %d packets) every per-send fail/succeed mask over two passes; plus serviceTxPktsOnce with every fail/succeed "
+             "subset of the used destinations for each of the first %d passes (UdpStack; GramStack up to 4 packets); plus (queues up to %d packets) every per-send fail/succeed mask over two passes; plus serviceTxPktsOnce with every subset of destinations failing in each of the first 2-3 (thorough 3-4) calls and with every fail/succeed "
              "pattern over the first min(%d, n+2) calls; plus each of the 9 transient errnos on three small queues; non-trivial = at least one failure injected"
              % (MAXN, FULLN, PASSES, ATT_MAXN, ONCE_CALLS),
         exhaustive=True)
